@@ -167,7 +167,10 @@ def judge(d):
     pos = np.array([m["pos"] for m in d["mols"]], dtype=np.float64)
     R = rots_of([m["rot"]["rv"] for m in d["mols"]])
     feats = pl.DataFrame({"uid": list(range(n))})
-    m = Molecules(pos, R, features=feats)
+    caller_pos = pos.astype(np.float32) if d.get("pos32") else pos.copy()   # the caller's own array (float32 or float64)
+    caller_copy = caller_pos.copy()
+    m = Molecules(caller_pos, R, features=feats)
+    frozen = []   # (object, pos snapshot, quaternion snapshot, tag): objects that later operations must not touch
     pos = m.pos.astype(np.float64)
     check_state("init", m, pos, R, out, 1e-6)
     check_axes("init", m, R, out)
@@ -234,7 +237,17 @@ def judge(d):
         else:
             if res is not m:
                 out.append(viol("C11/inplace-returned-new", f"{tag}: copy=False did not return self"))
+        if res is not m:
+            frozen.append((m, m.pos.copy(), m.quaternion().copy(), tag))
         m, pos, R = res, newpos, newR
+        for obj, psnap, qsnap, ftag in frozen:
+            if obj is not m and not (np.array_equal(obj.pos, psnap) and np.array_equal(obj.quaternion(), qsnap)):
+                out.append(viol("C11/earlier-object-altered", f"{tag}: an object produced earlier (original of '{ftag}') was altered by a later operation on a derived object "
+                                f"(max position change {np.abs(obj.pos - psnap).max():.3g})"))
+                return out
+        if not np.array_equal(caller_pos, caller_copy):
+            out.append(viol("C11/caller-array-altered", f"{tag}: the position array passed to Molecules() by the caller was modified"))
+            return out
         ok = check_state(tag, m, pos, R, out, 2e-3 * steps)
         if not m.features.equals(before_f):
             out.append(viol("C11/features-changed", f"{tag}: features changed by a rigid motion"))
@@ -286,6 +299,7 @@ def cases(draw):
         "src": [round(draw(st.floats(-20, 20)), 2) for _ in range(3)],
         "lshape": draw(gen.box_shapes(1, 5)),
         "lscale": draw(gen.scales),
+        "pos32": draw(st.booleans()),
     }
 
 
